@@ -98,6 +98,8 @@ FEATURE_PREDICATES = {
     "match_sequence_unbracketed": "match_sequence_parens",
     "empty_triple_fstring": "empty_triple_fstring",
     "fstring_then_plain_string": "fstring_then_plain_string",
+    "plain_string_then_fstring": "plain_string_then_fstring",
+    "bare_tuple_trailing_comma": "bare_tuple_trailing_comma_outside_region",
     "fstring_escaped_brace_and_hash": "fstring_escaped_brace_and_hash",
     "kwonly": "kwonly_posonly_params_unvisited",
     "posonly": "kwonly_posonly_params_unvisited",
